@@ -284,7 +284,8 @@ def header_event(inst, rng, prop="C03"):
         try:
             tmp = io.StringIO()
             las.write(tmp, version=2.0)
-            las = lasio.read(tmp.getvalue(), mnemonic_case=case)
+            # (sometimes without its data rows: a header-only object must be writable like any other)
+            las = lasio.read(tmp.getvalue(), mnemonic_case=case, ignore_data=rng.random() < 0.35)
         except Exception:
             pass
     ev = {"op": "header", "prop": prop, "version": version, "case": case, "exc": "", "secs": [], "obs": [], "other": codes(las.other),
